@@ -32,10 +32,12 @@ class VirtualToReal:
     This is called when a virtual line (previous) is
     substituted by a real line
     """
-    if not isinstance(previous, gfapy.line.Unknown):
+    if not isinstance(previous, gfapy.line.Unknown) and \
+        previous.record_type == self.record_type:
       self._import_field_references(previous)
       self._update_field_backreferences(previous)
     else:
+      # the placeholder says nothing about the fields of this line
       self._initialize_references_or_rollback()
     self._import_nonfield_references(previous)
     self._update_nonfield_backreferences(previous)
